@@ -81,6 +81,16 @@ CLAIMED = {
          "The unit table is finite: every identifier (and case variants), every alias, every ordered pair, every same-category triple and every prefixed/base name pair is enumerated; resolution is recomputed independently from the identifier lists, ratios from an independent prefix table, and the algebraic laws checked at 12/24 magnitudes.",
          "Tolerances 2/8/12 ulp relative (identity / round trip / transitivity), temperature 1e-9 relative; magnitudes outside the listed set are not explored.",
          "DESIGN.md §4 C17"),
+ "C18": ("exploration",
+         "exhaustive enumeration of a recursion grammar, every program executed by the real release binary under the 8 MiB stack limit",
+         "11 recursion kinds (self, mutual, via / map / reduce / filter callbacks, do-block body, record-wrapped, into, conditional arms, closure-returning-closure) x 4 nesting constructs x per-call nesting depth 1..32 x {unbounded, bounded to a few hundred calls}: every program runs twice through the release CLI with RLIMIT_STACK = 8 MiB; unbounded recursion must exit 1 with 'maximum call depth', bounded recursion must exit 0 with the value the harness computes.",
+         "Depends on the build profile (release, as shipped) and on the 8 MiB limit the property names; nesting deeper than 32 is not explored.",
+         "DESIGN.md §4 C18"),
+ "C19": ("model_checking",
+         "reference model of the CLI contract; every model trace (script x input set x invocation mode) replayed against the real binary",
+         "Every script of length <= 3/4 over an 11-statement alphabet x 14 input sets (stdin and/or up to three --input flags: overlapping objects, arrays, scalars, explicit value_1 key, empty stdin, invalid JSON) x 4 invocation modes (file, inline, -e, -o file) is run by the real `blots` binary and compared with a reference model: exit 0 iff all statements succeed, exactly one outputs object with the declared names in declaration order and their values, no object / no --output file on failure, diagnostics present, left-to-right merge with value_n numbering, #name == inputs.name.",
+         "Trusts the ~80-line model in mc/src/c19.rs; values are JSON-representable; the interactive REPL is not driven.",
+         "DESIGN.md §4 C19"),
  "C20": ("exploration",
          "exhaustive enumeration of a finite double grid; exact-rational reference for the displayed numeral",
          "Every double of the grid N (23 k quick / 455 k thorough) plus NaN, infinities and zeros is rendered by format_display_number and by the format built-in; an exact-rational oracle checks the numeral grammar, |text - x| < 10^(floor(log10|x|) - 14) and exactness of integers below 2^53.",
